@@ -43,14 +43,16 @@ def slices(ctx):
         s["poly-depth2"] = (dict(FULL, Quarters=[1, 2], Shifts=[(1, 0), (-2, 1)], Factors=[(-1, 1), (2, 1), (-1, -2)], Origins=[(0, 0)],
                                  Boxes=[B_OVER, B_ADJ], MaxBoxes=2, MaxOps=2, PolyOps=pa.POLY_OPS, DevOps=[]), True)
         s["setops-depth3"] = (dict(MINI, Boxes=[B_OVER, B_ADJ], MinBoxes=2, MaxBoxes=2, MaxOps=3, Chained=True, PolyOps=["setop"], DevOps=[]), True)
-        s["devices-depth3"] = (dict(MINI, Origins=[(0, 0), (1, -1)], Boxes=[B_BIG, B_IN], MinBoxes=2, MaxBoxes=2, MaxOps=3, Chained=True, PolyOps=["translate", "poke"], DevOps=pa.DEV_OPS), True)
+        s["devices-depth3"] = (dict(MINI, Origins=[(0, 0), (1, -1)], Boxes=[B_BIG, B_IN], MinBoxes=2, MaxBoxes=2, MaxOps=3, Chained=True, PolyOps=["translate", "poke"], DevOps=pa.DEV_OPS,
+                                    ProbeModes=["none", "inside", "outside"]), True)
     else:
         # thorough: full enumeration with VIEW for the clauses; the exported (replayed) part of the depth-3 slices is the
         # chained sub-family (every operation involves the previous result) to keep the replay inside the time budget
         s["poly-depth2"] = (dict(FULL, Boxes=[B_OVER, B_ADJ, B_BIG], MaxBoxes=2, MaxOps=2, PolyOps=pa.POLY_OPS, DevOps=[]), True)
         s["setops-depth3"] = (dict(MINI, Boxes=[B_OVER, B_ADJ, B_BIG], MaxBoxes=3, MaxOps=3, PolyOps=["setop"], DevOps=[]), False)
         s["setops-depth3-chained"] = (dict(MINI, Boxes=[B_OVER, B_ADJ, B_BIG], MaxBoxes=2, MaxOps=3, Chained=True, PolyOps=["setop"], DevOps=[]), True)
-        dev3 = dict(MINI, Origins=[(0, 0), (1, -1)], Boxes=[B_BIG, B_IN, B_OUT], MaxBoxes=3, MaxOps=3, PolyOps=["translate", "poke"], DevOps=pa.DEV_OPS)
+        dev3 = dict(MINI, Origins=[(0, 0), (1, -1)], Boxes=[B_BIG, B_IN, B_OUT], MaxBoxes=3, MaxOps=3, PolyOps=["translate", "poke"], DevOps=pa.DEV_OPS,
+                    ProbeModes=["none", "inside", "outside"])
         s["devices-depth3"] = (dev3, False)
         s["devices-depth3-chained"] = (dict(dev3, Chained=True), True)
         pd3 = dict(MINI, Boxes=[B_OVER, B_ADJ], MaxBoxes=2, MaxOps=3, PolyOps=pa.POLY_OPS, DevOps=[])
@@ -60,11 +62,12 @@ def slices(ctx):
     return s
 
 
-CANARY_BOUNDS = dict(MINI, Factors=[(-1, 1), (2, 1)], Boxes=[B_OVER, B_ADJ, B_BIG, B_IN], MaxBoxes=2, MaxOps=2,
-                     PolyOps=pa.POLY_OPS, DevOps=pa.DEV_OPS)
+CANARY_BOUNDS = dict(MINI, Factors=[(-1, 1), (2, 1)], Origins=[(0, 0), (1, -1)], Boxes=[B_OVER, B_ADJ, B_BIG, B_IN], MaxBoxes=2, MaxOps=2,
+                     PolyOps=pa.POLY_OPS, DevOps=pa.DEV_OPS, ProbeModes=["none", "inside", "outside"])
 DESIGN_CANARIES = [("MSubIsDifference", "SetOpsArePointwise"), ("MCopyOnTransform", "NonInplaceNeverMutates"),
                    ("MCopyOnTransform", "InplaceReturnsSelf"), ("MOrient", "StoredClosedAndCCW"),
-                   ("MCopyFresh", "CopiesDoNotAlias"), ("MDeviceUsesHoles", "DeviceIsFilmMinusHoles")]
+                   ("MCopyFresh", "CopiesDoNotAlias"), ("MDeviceUsesHoles", "DeviceIsFilmMinusHoles"),
+                   ("MDeviceUsesHoles", "ProbesValidatedAtConstruction"), ("MProbeOrigin", "PointsMapWithShapes")]
 
 
 def random_slices(ctx, n):
@@ -80,7 +83,8 @@ def random_slices(ctx, n):
                  Shifts=[rnd.choice([(1, 0), (0, 1), (-1, -1), (2, -1), (0, -2)])],
                  Factors=[rnd.choice([(-1, 1), (1, -1), (-1, -1), (2, 1), (1, 2), (-2, 1), (2, -2), (-1, 2)])],
                  Origins=[rnd.choice([(0, 0), (1, 1), (-1, 0), (0, 2)])], MaxHoles=1,
-                 PolyOps=ops[:2] if dev else ops, DevOps=rnd.sample(pa.DEV_OPS[1:], 1) + ["mkdev"] if dev else [])
+                 PolyOps=ops[:2] if dev else ops, DevOps=rnd.sample(pa.DEV_OPS[1:], 1) + ["mkdev"] if dev else [],
+                 ProbeModes=["none", "inside"])
         out[f"random-{k}"] = (b, True)
     return out
 
@@ -169,8 +173,34 @@ def run(ctx):
     acc_r = validate_files(ctx, [{"file": str(relfile), "first": 0, "meta": rel_tr}], len(rel_tr), lambda n: rel_tr[n], what="relations")
     ph['validate'] = round(time.time() - T0, 1)
     opcount = collections.Counter()
+    frames = collections.Counter()
+    probe_ops = collections.Counter()
+    for n, m in enumerate(meta):
+        frames[m["frame"]] += 1
+        seen_probes = False
+        for st, e in zip(chains[n], m["ops"]):
+            o = st["o"]
+            if o["op"] == "mkdev" and o.get("pm", "none") != "none":
+                probe_ops[f"Device(probe_points {o['pm']}) -> {e[3]}"] += 1
+                seen_probes = seen_probes or e[3] == "ok"
+            elif seen_probes and o["op"] in ("devrotate", "devscale", "devtranslate", "devcopy"):
+                probe_ops[o["op"] + (" about an origin other than (0,0)" if o["op"] in ("devrotate", "devscale") and tuple(o["org"]) != (0, 0) else "")
+                          + " after a device with probe points exists"] += 1
+    ctx.cov["chains_per_frame"] = dict(frames)
+    ctx.cov["probe_point_operations"] = dict(probe_ops)
+    if not ctx.violations:
+        for fr in pa.FRAMES:
+            if frames[fr.name] < 20:
+                raise core.MachineryFailure(f"C18: only {frames[fr.name]} chains replayed in frame '{fr.name}' (vacuous)")
+        need = ["Device(probe_points inside) -> ok", "Device(probe_points outside) -> ValueError",
+                "devrotate about an origin other than (0,0) after a device with probe points exists",
+                "devscale about an origin other than (0,0) after a device with probe points exists",
+                "devtranslate after a device with probe points exists", "devcopy after a device with probe points exists"]
+        for k in need:
+            if not probe_ops[k]:
+                raise core.MachineryFailure(f"C18: never executed: {k} (vacuous)")
     for m in meta:
-        ctx.note_case(m["key"] + "|" + "/".join(m["forms"]), m["n"] > 1)
+        ctx.note_case(m["key"] + "|" + "/".join(m["forms"]) + "|" + m["frame"], m["n"] > 1)
         for e in m["ops"]:
             opcount[tuple(e)] += 1
     for t in rel_tr:
